@@ -45,8 +45,8 @@ def handleAts (n : Nat) (take : String) (obs : String) : String × Bool × Strin
     | some b, some r, some g =>
       let model := s!"build=0 run={w} got={w}"
       if g != w then (model, false, s!"{g} elements delivered, want {w}")
-      else if b != 0 then (model, false, s!"{b} period ends computed while the stream was built (planning must not work)")
-      else if r > w + 1 then (model, false, s!"{r} period ends computed for a terminal that needs {w} elements")
+      else if b != 0 then (model, false, s!"{b} steps (period ends computed / generator advanced) while the stream was built (planning must not work)")
+      else if r > w + 1 then (model, false, s!"{r} steps (period ends computed / generator advanced) for a terminal that needs {w} elements")
       else (model, true, "")
     | _, _, _ => (s!"build=0 run={w} got={w}", false, s!"observation: {obs}")
 
@@ -102,6 +102,11 @@ def handle (c obs : String) : String × Bool × String :=
     match k.toNat?, ins.mapM (fun ts => match ts with | [t] => parseElems t | _ => none) with
     | some k, some ins => handleJoinN k ins obs
     | _, _ => ("bad-case", false, "unparsable case")
+  -- `fi1` / `fi2`: FromIterator / FromIterator2 over a generator of n elements that counts its steps: the same bound
+  | [["T", "fi1", n, take]] | [["T", "fi2", n, take]] =>
+    match n.toNat? with
+    | some n => handleAts n take obs
+    | none => ("bad-case", false, "n")
   | [["T", "ats", n, take]] =>
     match n.toNat? with
     | some n => handleAts n take obs
